@@ -11,7 +11,7 @@ def pairProd : List Nat → Int
 
 /-- is `idx` one of `itertools.permutations(range(n))`? -/
 def isPermOfRange (n : Nat) (idx : List Nat) : Bool :=
-  idx.length == n && idx.all (· < n) && idx.eraseDups.length == idx.length
+  idx.length == n && idx.all (· < n) && decide idx.Nodup
 
 /-- entry of `LeviCivitaTensor(n).array`: zero-initialised, the permutation tuples are overwritten -/
 def epsEntry (n : Nat) (idx : List Nat) : Int :=
